@@ -9,6 +9,9 @@ package main
 
 import (
 	"context"
+	"fmt"
+	"sort"
+	"strings"
 	"time"
 
 	"github.com/smart-core-os/sc-api/go/traits"
@@ -31,10 +34,15 @@ type gen struct {
 	r        *vcoq.Rand
 	hist     map[string]int
 	modelOps int
+	// per target / per method counts of the monitor part (evidence)
+	targetOps, targetRuns, methodCalls map[string]int
+	bracketedMethods                   map[string]bool
+	guardIn, guardAll                  int
 	// which variant of the code the tree has, learnt by running the refutation witnesses of
 	// Props/C07.v on the implementation (a repaired tree is then compared with the repaired model)
 	metaCode, seedClearCode, removeCode, unionCode string
 	unionInPlace                                   bool
+	openCloseInPlace                               bool
 }
 
 // ---- the witnesses of Props/C07.v on the real code ----
@@ -82,12 +90,21 @@ func probeParentUnion() bool {
 }
 
 func genC07(o *vcoq.Out, r *vcoq.Rand, tier string) error {
-	o.Header = "From SC Require Import Base.Prelude Alias.Owned Alias.C07Judge."
+	o.Header = "From SC Require Import Base.Prelude Alias.Owned Alias.Nested Alias.C07Judge."
 	o.CaseType = "c07case"
 	o.Judge = "judge"
 	o.Shard = 40
 	o.Rule = "random histories of 4-12 operations: Set/Update/Add/Delete/Get/List/Pull (nil and top-level read/update masks, updates_only, up to 3 subscriptions with different masks with and without backpressure - every event value compared with the stored value under the subscription's mask -, interceptors before/after from {none, set-new, add-old, write-old-scalar, share-old-sub, write-old-element}) on resource.Value and resource.Collection of TestAllTypes; the same through parentpb (AddChild, AddChildTrait, RemoveChildTrait, RemoveChildByName, ListChildren, PullChildren), metadatapb (Update/Merge/Get/Pull) and enterleavesensorpb (Create/ResetTotals/Get/Pull); the caller rewrites every int/string scalar of an earlier argument at random points. Non-trivial: >= 3 operations; distinct by the whole history with observations. Monitor part: every trait model and memory device, methods and arguments chosen by reflection."
-	g := &gen{o: o, r: r, hist: map[string]int{}}
+	g := &gen{o: o, r: r, hist: map[string]int{}, targetOps: map[string]int{}, targetRuns: map[string]int{}, methodCalls: map[string]int{}, bracketedMethods: map[string]bool{}}
+	// what the tree has, read from the source on every run; the run stops when the monitor does not cover it
+	sc, err := scanTraitTree(repoDir())
+	if err != nil {
+		return err
+	}
+	cov, err := checkCoverage(sc)
+	if err != nil {
+		return err
+	}
 	g.metaCode, g.seedClearCode, g.removeCode, g.unionCode = "IMeta", "SClear", "IRemove", "IUnion"
 	if probeMetadata() {
 		g.metaCode = "IMetaV0"
@@ -101,8 +118,13 @@ func genC07(o *vcoq.Out, r *vcoq.Rand, tier string) error {
 	if g.unionInPlace = probeParentUnion(); g.unionInPlace {
 		g.unionCode = "IUnionV0"
 	}
+	asmCode := "RAsm"
+	if g.openCloseInPlace = probeOpenCloseGet(); g.openCloseInPlace {
+		asmCode = "RAsmV0"
+	}
 	o.Extra["coverage_extra"] = map[string]any{"variants": map[string]any{"metadata_merge": g.metaCode,
-		"enterleave_pull_seed": g.seedClearCode, "parent_remove": g.removeCode, "parent_union": g.unionCode}}
+		"enterleave_pull_seed": g.seedClearCode, "parent_remove": g.removeCode, "parent_union": g.unionCode,
+		"openclose_get_positions": asmCode}}
 
 	scale := 1
 	if tier == "thorough" {
@@ -123,23 +145,66 @@ func genC07(o *vcoq.Out, r *vcoq.Rand, tier string) error {
 	for i := 0; i < 40*scale; i++ {
 		g.enterLeaveSeq()
 	}
+	for i := 0; i < 40*scale; i++ {
+		g.openCloseSeq()
+	}
 	// monitor part
-	for _, spec := range modelSpecs {
+	for _, spec := range targets {
 		// models with many methods get longer and more histories (electricpb: 20 methods)
 		nm := numMethods(spec)
 		reps, nOps := 5+nm, 24
+		multi := strings.Contains(spec.name, "Server") || strings.Contains(spec.name, "Group")
+		if multi {
+			// a server with the model behind it: the model's own methods have their own target
+			reps = 4 + nm/3
+		}
 		if nm > 8 {
 			nOps = 3 * nm
+			if multi {
+				nOps = 2 * nm
+			}
 		}
-		for rep := 0; rep < reps*scale; rep++ {
+		mscale := scale
+		if mscale > 6 {
+			mscale = 6 // thorough: 6x the monitor histories (53 targets), 12x the Coq cases
+		}
+		for rep := 0; rep < reps*mscale; rep++ {
 			g.modelSeq(spec, nOps)
 		}
 	}
 	g.scenarios()
 	ce := o.Extra["coverage_extra"].(map[string]any)
+	ce["guard_pass"] = map[string]int{"inside_guard": g.guardIn, "cases": g.guardAll}
 	ce["monitor_operations"] = g.modelOps
 	ce["monitor_histogram"] = g.hist
-	ce["monitor_models"] = len(modelSpecs)
+	ce["monitor_models"] = len(targets)
+	// every discovered method must actually have been called during this run
+	var never []string
+	perTarget := map[string]any{}
+	for _, t := range targets {
+		perTarget[t.name] = map[string]int{"histories": g.targetRuns[t.name], "operations": g.targetOps[t.name]}
+	}
+	for ty, ms := range cov.PerType {
+		for _, m := range ms {
+			if g.methodCalls[ty+"."+m] == 0 {
+				never = append(never, ty+"."+m)
+			}
+		}
+	}
+	sort.Strings(never)
+	ce["monitor_targets"] = perTarget
+	ce["monitor_method_calls"] = g.methodCalls
+	ce["monitor_discovered"] = map[string]int{"source_files": sc.Files, "constructors": cov.Constructors, "types": cov.Types, "methods": cov.Methods}
+	ce["monitor_methods_never_called"] = never
+	var br []string
+	for k := range g.bracketedMethods {
+		br = append(br, k)
+	}
+	sort.Strings(br)
+	ce["monitor_methods_bracketed_as_reads"] = br
+	if len(never) > 0 {
+		return fmt.Errorf("C07 monitor: discovered methods that no history of this run called: %v", never)
+	}
 	return nil
 }
 
